@@ -123,7 +123,8 @@ def run_concurrent(progs, prefix, cfgs, fine=None, horizon=200000):
                 sys.settrace(None)
             baton.finish(i)
 
-    threads = [threading.Thread(target=body, args=(i,), name="T%d" % i) for i in range(n)]
+    # all threads carry the SAME name: thread identity, not the name, must separate them
+    threads = [threading.Thread(target=body, args=(i,), name="worker") for i in range(n)]
     for t in threads:
         t.start()
     for t in threads:
